@@ -94,7 +94,7 @@ Proof.
                 else if is_time_attr attr then time_value m1 a else auto_conv c m1 a)
         as [m2 [v|]|m2 e2|]; try (inversion H; subst; exact G).
       pose proof (attr_add_shape attr v d G) as GA.
-      destruct ((negb ic && is_formal_attr attr)%bool).
+      destruct ((negb (ic && is_prov_name "entity" attr) && is_formal_attr attr)%bool).
       * destruct (attr_get attr d) as [|e0 rest0].
         -- eapply IH; [exact GA | exact H].
         -- destruct (py_eq v e0); [eapply IH; [exact G | exact H] | inversion H; subst; exact G].
